@@ -504,21 +504,20 @@ class Discharger:
         if not (r['k'] == 'Call' and r['func']['k'] == 'Path' and r['func']['path']['s'] in ('syn::parse_str', 'proc_macro2::TokenStream::from_str', 'TokenStream::from_str')):
             return None
         a = r['args'][0]
-        if es(a).replace('&', '') != 'self.0.as_str()':
-            return None
         fn = s.fw.fn
-        # all constructors of the self type in the crate: `Self(<x>.into_token_stream().to_string(), ..)`
+        from .helpers import string_field_of, ctor_string_args
+        K = string_field_of(self.cx, fn)
+        if K is None or self.tm(s.fw).term(a, s.ev.scope) != ('field', ('param', 'self'), K):
+            return None
+        # all constructors of the self type in the crate: the String component is `<x>.into_token_stream().to_string()`
         ctor_ok = True
         n = 0
         for f in self.cx.crate.fns:
             if f.self_ty == fn.self_ty and f.module.path == fn.module.path:
-                fw = self.cx.fw(f)
-                for ev in fw.events:
-                    if ev.kind == 'call' and ev.path == 'Self' and ev.args:
-                        n += 1
-                        t = es(ev.args[0])
-                        if not t.endswith('.into_token_stream().to_string()') and not t.endswith('.to_token_stream().to_string()'):
-                            ctor_ok = False
+                for t in ctor_string_args(self.cx, f, K):
+                    n += 1
+                    if not (isinstance(t, tuple) and t[0] == 'mcall' and t[2] == 'to_string' and isinstance(t[1], tuple) and t[1][0] == 'mcall' and t[1][2] in ('into_token_stream', 'to_token_stream')):
+                        ctor_ok = False
         if ctor_ok and n > 0:
             return ('R2-token-string-roundtrip', 'the string is only ever produced by ToTokens::to_string() (%d constructor sites), which re-lexes/re-parses' % n)
         return None
